@@ -193,8 +193,66 @@ def run_v2(spec):
     return out
 
 
+def run_v2_entry(spec):
+    """index entry round trip for *any* record size: _update_tile_offset either refuses (struct.error when offset/size do not
+    fit the 40+24 bit entry: modelled as the no-overflow side condition of the 64-bit pack) or _tile_offset_size decodes exactly
+    what was written -- never a silently truncated size"""
+    patches = _patches(spec)
+    try:
+        C = load_compact(True, patches)
+    except PatchDoesNotApply as e:
+        return dict(status='skipped', detail=str(e))
+    holder = {}
+
+    def fn():
+        st = V2(C, 1)
+        s = CTX.solver
+        off, size = z3.BitVec('offset', W), z3.BitVec('size', W)
+        s.add(z3.ULT(off, 2 ** 40), z3.ULT(size, 2 ** 32), z3.UGE(off, IDX2 + 4), size != 0)
+        holder.update(off=off, size=size, st=st)
+        rx, ry = st.b._rel_tile_coord((BV64(st.x), BV64(st.y), 0))
+        fh = SymFile(st.disk, 'bundle')
+        st.b._update_tile_offset(fh, rx, ry, BV64(off), BV64(size))
+        fh.close()
+        arr1, L1 = st.disk.files['bundle']
+        off_r, size_r = st.entry(arr1, bv(L1), st.x, st.y)
+        fits = z3.And(*side()) if side() else z3.BoolVal(True)
+        if spec['kind'] == 'witness':
+            return z3.BoolVal(False), st
+        return z3.Implies(fits, z3.And(off_r == off, size_r == size)), st
+    res, st = run_sym(fn)
+    out = dict(status=res.status, stats=res.stats, detail=res.reason or (res.exc or ''), engine='E4',
+               functions=['BundleV2._update_tile_offset', 'BundleV2._tile_offset_size', 'BundleV2._tile_idx_offset'])
+    if res.status == 'sat' and spec['kind'] != 'witness':
+        m = res.model
+        ev = lambda t: m.eval(t, model_completion=True).as_long()   # noqa
+        vals = dict(entry_roundtrip=True, x=ev(holder['st'].x), y=ev(holder['st'].y), offset=ev(holder['off']), size=ev(holder['size']))
+        ok, detail = native_entry_roundtrip(vals, patches)
+        out.update(cex=vals, replayed=ok, detail=(out['detail'] + ' | replay: ' + detail).strip(' |'))
+    return out
+
+
+def native_entry_roundtrip(c, patches):
+    import io
+    import struct as _struct
+    C = load_compact(False, patches)
+    b = C.BundleV2.__new__(C.BundleV2)
+    rx, ry = b._rel_tile_coord((c['x'], c['y'], 0))
+    f = io.BytesIO(b'\x00' * (IDX2 + 16))
+    try:
+        b._update_tile_offset(f, rx, ry, c['offset'], c['size'])
+    except (_struct.error, OverflowError) as e:
+        return False, 'native code refuses the entry (%s)' % type(e).__name__
+    got = b._tile_offset_size(f, rx, ry)
+    if tuple(got) != (c['offset'], c['size']):
+        return True, 'entry written for (offset=%d, size=%d) decodes to %r' % (c['offset'], c['size'], tuple(got))
+    return False, 'round trip ok natively'
+
+
 def replay(body):
     c = body['cex']
+    if c.get('entry_roundtrip'):
+        return native_entry_roundtrip(c, _patches(body))
     if c.get('v1'):
         ok, detail, _ = native_check_v1(c, map_byte_fn(c.get('idx_bytes', {})), map_byte_fn(c.get('dat_bytes', {})), _patches(body))
         return ok, detail
@@ -672,6 +730,10 @@ def obligations(tier, seed):
     specs.append(_spec('canary/v1 bulk load stops at the first removed tile', 'run_v1_bulk', kind='canary', n=3, cost=5,
                        patches={'mapproxy.cache.compact': [["                    if offset == 0:\n                        missing = True\n                        continue",
                                                             "                    if offset == 0:\n                        missing = True\n                        break"]]}))
+    specs.append(_spec('v2/index-entry-roundtrip-any-size', 'run_v2_entry', cost=10))
+    specs.append(_spec('twin/v2-index-entry', 'run_v2_entry', kind='witness', cost=2))
+    specs.append(_spec('canary/v2 index entry size silently cut to 24 bits', 'run_v2_entry', kind='canary', cost=5,
+                       patches={'mapproxy.cache.compact': [["        val = offset + (size << 40)\n", "        val = offset + ((size & 0xffffff) << 40)\n"]]}))
     specs.append(_spec('twin/v2-store', 'run_v2', kind='witness', op='store', n=3, cost=5))
     for label, op, patches in (CANARIES if tier == 'thorough' else CANARIES[:3]):
         specs.append(_spec('canary/' + label, 'run_v2', kind='canary', op=op, n=3, cost=20,
